@@ -537,7 +537,7 @@ func (mc *Machine) ActBulkDelete(t *rapid.T) {
 }
 
 // ActLateColumn creates one of the schema's late columns.
-func (mc *Machine) ActLateColumn(t *rapid.T) {
+func (mc *Machine) ActLateColumn(t *rapid.T, mirrors ...*column.Collection) {
 	var pending []int
 	for i, cs := range mc.Sch.Cols {
 		if (cs.Late || mc.dropped[i]) && !mc.M.ColLive[i] {
@@ -549,8 +549,10 @@ func (mc *Machine) ActLateColumn(t *rapid.T) {
 	}
 	ci := pending[rapid.IntRange(0, len(pending)-1).Draw(t, "late-col")]
 	mc.logf("createColumn %s (rows=%d)", mc.Sch.Cols[ci], len(mc.M.Rows))
-	if err := mc.C.CreateColumn(mc.Sch.Cols[ci].Name, newColumn(mc.Sch.Cols[ci])); err != nil {
-		mc.fail(t, "CreateColumn(%s): %v", mc.Sch.Cols[ci].Name, err)
+	for _, c := range append([]*column.Collection{mc.C}, mirrors...) {
+		if err := c.CreateColumn(mc.Sch.Cols[ci].Name, newColumn(mc.Sch.Cols[ci])); err != nil {
+			mc.fail(t, "CreateColumn(%s): %v", mc.Sch.Cols[ci].Name, err)
+		}
 	}
 	mc.M.ColLive[ci] = true
 	if len(mc.M.Rows) > 0 {
@@ -565,7 +567,7 @@ func (mc *Machine) ActLateColumn(t *rapid.T) {
 // ActDropColumn drops a value column that no index of the machine is built on; it may come back
 // later (ActLateColumn) as a brand-new column of the same name: nothing of its former values may
 // show through.
-func (mc *Machine) ActDropColumn(t *rapid.T) {
+func (mc *Machine) ActDropColumn(t *rapid.T, mirrors ...*column.Collection) {
 	var cands []int
 	for i, cs := range mc.Sch.Cols {
 		if i == 0 || !mc.M.ColLive[i] || cs.Kind == KKey {
@@ -586,7 +588,9 @@ func (mc *Machine) ActDropColumn(t *rapid.T) {
 	}
 	ci := cands[rapid.IntRange(0, len(cands)-1).Draw(t, "drop-col")]
 	mc.logf("dropColumn %s (rows=%d)", mc.Sch.Cols[ci].Name, len(mc.M.Rows))
-	mc.C.DropColumn(mc.Sch.Cols[ci].Name)
+	for _, c := range append([]*column.Collection{mc.C}, mirrors...) {
+		c.DropColumn(mc.Sch.Cols[ci].Name)
+	}
 	mc.M.ColLive[ci] = false
 	for _, row := range mc.M.Rows {
 		row[ci] = Cell{}
